@@ -352,7 +352,7 @@ Outcome PSession::call(const Op &op) {
     calls++; steps++;
     if (was_latched && !is_restart(op.code)) post_error_calls++;
 
-    if (inited && !is_init) { p->cb = use_cb ? sim_cb : nullptr; p->cb_context = use_cb ? this : nullptr; }
+    if (inited && !is_init && use_cb) { p->cb = sim_cb; p->cb_context = this; }      // an application without a callback never touches the field
     g_cur_session = this;
     uint64_t gate0 = g_gate_hits.load();
     if (!guarded(op, o)) {
@@ -384,6 +384,7 @@ Outcome PSession::call(const Op &op) {
     e += fmt(" -> %d e=%s", o.ret ? 1 : 0, err_name(o.err));
     if (!latched) e += fmt(" u=%zu d=%u", o.used, o.depth);
     e += fmt(" cb=%llu", (unsigned long long)o.cb);
+    if (!use_cb && p->cb != nullptr) e += " CALLBACK-FIELD-NOT-NULL";     // the application never installed one: init / print / to_string must leave it cleared
     switch (op.code) {
         case P_DEPTH: if (!latched) e += fmt(" depth=%lld", (long long)o.ival); break;
         case P_GET_TYPE: e += fmt(" type=%d", o.type); break;
